@@ -70,7 +70,7 @@ func c03(r *rep.Run) {
 		coreMax, richMax = 8, 7
 		r.SetBudget(1500e9)
 	}
-	r.Rule = "every CORE/RICH program up to the node bound x 16 optimisation subsets x {events off, ReportEvent} x every binding of its variables to a value or a sentinel fetch failure; oracle: the ordered log of VariableFetcher.Get calls and registered-operator calls (names, argument snapshots, results, failures) recorded by the harness equals the trace of left-to-right short-circuit evaluation (R1) of the tree parsed from Dump, and so does the outcome; under FastEvaluation a two-leaf operator may fetch both leaves first (every per-node choice is accepted, nothing else). With optimisations off the Dump tree must equal the source tree. Plus nested evaluations: while a registered operator runs, the same compiled program (operand widths 3..40: all operand-stack classes) is evaluated to completion under another binding; the outer Eval/TryEval must still match R1 for its own binding; and `if` conditions bound to every kind of non-boolean value (8 shapes): evaluation fails at the condition and neither branch runs. non-trivial = executions in which R1 skips at least one effect (short-circuit / untaken branch) or fails"
+	r.Rule = "every CORE/RICH program up to the node bound x 16 optimisation subsets x {events off, ReportEvent} x every binding of its variables to a value or a sentinel fetch failure; oracle: the ordered log of VariableFetcher.Get calls and registered-operator calls (names, argument snapshots, results, failures) recorded by the harness equals the trace of left-to-right short-circuit evaluation (R1) of the tree parsed from Dump, and so does the outcome; under FastEvaluation a two-leaf operator may fetch both leaves first (every per-node choice is accepted, nothing else). With optimisations off the Dump tree must equal the source tree. TryEval with one variable unknown performs the same effects whether the fetcher reports it as not cached or as cached with the DNE marker as value. Plus nested evaluations: while a registered operator runs, the same compiled program (operand widths 3..40: all operand-stack classes) is evaluated to completion under another binding; the outer Eval/TryEval must still match R1 for its own binding; and `if` conditions bound to every kind of non-boolean value (8 shapes): evaluation fails at the condition and neither branch runs. non-trivial = executions in which R1 skips at least one effect (short-circuit / untaken branch) or fails"
 	r.Assume = []string{"the independent Dump reader (mc/sx) is correct on the plain literals these alphabets use",
 		"small-scope hypothesis on tree size"}
 	r.Cov["bounds"] = map[string]int{"core_max_nodes": coreMax, "rich_max_nodes": richMax}
@@ -147,6 +147,37 @@ func c03(r *rep.Run) {
 				h.Reset()
 				gotT := h.TryEval(c.e, c.f)
 				ex++
+				// an unknown variable is unknown however the fetcher says so: reported
+				// as not cached, or cached with the DNE marker as its value — the
+				// same result and the same effects (first and last variable)
+				if b := c.o.OptBits(); (b == 0 || b == 15) && len(p.Vars) > 0 {
+					saved := append([]ref.Ev(nil), h.Trace...)
+					for _, u := range []int{0, len(p.Vars) - 1} {
+						if _, failing := vals[u].(error); failing || (u == 0 && len(p.Vars) == 1 && u != 0) {
+							continue
+						}
+						av := make([]bool, len(p.Vars))
+						for x := range av {
+							av[x] = x != u
+						}
+						c.f.Avail = av
+						h.Reset()
+						g1 := h.TryEval(c.e, c.f)
+						t1 := append([]ref.Ev(nil), h.Trace...)
+						h.Reset()
+						g2 := h.TryEval(c.e, dneValued{c.f})
+						ex += 2
+						c.f.Avail = nil
+						if !drive.SameOutcome(g1, g2) || (g1.Err == nil && isDNE(g1.Val) != isDNE(g2.Val)) || !ref.TraceEqual(t1, h.Trace) {
+							r.Violate("tryeval-dne-valued", p.Src+c.o.String(), sprintf("TryEval with %s unknown: reported as not cached it gives %s, cached with the DNE marker as value it gives %s (or performs other fetches / operator calls)", p.Vars[u].Name, g1, g2), caseDesc(p.Src, c.o, p.Vars, vals, av,
+								map[string]interface{}{"trace_not_cached": traceStr(t1), "trace_dne_valued": traceStr(h.Trace)}))
+						}
+						if len(p.Vars) == 1 {
+							break
+						}
+					}
+					h.Trace = append(h.Trace[:0], saved...)
+				}
 				if okT, wantTraceT, wantT := c03Match(trees[k], p.Vars, vals, c.o.FE, gotT, h.Trace); !okT {
 					r.Violate("tryeval-trace", p.Src+c.o.String(), sprintf("TryEval (every variable available) gives %s / performs different fetches and operator calls than short-circuit evaluation of the Dump tree (%s)", gotT, wantT), caseDesc(p.Src, c.o, p.Vars, vals, nil,
 						map[string]interface{}{"dump_tree": trees[k].Src(), "got": gotT.String(), "want": wantT.String(), "got_trace": traceStr(h.Trace), "want_trace": traceStr(wantTraceT)}))
